@@ -1,6 +1,7 @@
 package props
 
 import (
+	"time"
 	"bytes"
 	"fmt"
 	"sync"
@@ -54,7 +55,13 @@ func c15SharedRun(c c15SharedCase) (out Outcome) {
 			}(i)
 		}
 		close(start)
-		wg.Wait()
+		fin := make(chan struct{})
+		go func() { wg.Wait(); close(fin) }()
+		select {
+		case <-fin:
+		case <-time.After(15 * time.Second):
+			return viol("client-spin@compressCellblocks", "round %d: %d calls on the shared compressor had not all returned after 15 s of real time", ri, len(round))
+		}
 		if len(round) > 1 {
 			concurrent = true
 		}
